@@ -125,6 +125,7 @@ theorem index_add_eq (idx : NameIndex) (k x : String) :
     simp only [Option.getD_none, List.nil_append]
     rw [set_append_self idx k [] [x] hc, PyDict.set_of_not_contains hc]
 
+set_option linter.unusedSimpArgs false in
 /-- closed form of the generated `_add` -/
 theorem add_closed (s : ServiceRegistry) (info : Svc) :
     ServiceRegistry.add lower s info =
@@ -134,9 +135,13 @@ theorem add_closed (s : ServiceRegistry) (info : Svc) :
                   servers := NameIndex.add s.servers (lower info.server) (lower info.name),
                   has_entries := true }, info.clearMemo) := by
   unfold ServiceRegistry.add
-  by_cases hc : PyDict.contains strEq s.services (lower info.name) = true
-  · simp only [hc, if_true, pyAssert_true, bind, Except.bind, throw, throwThe, MonadExceptOf.throw]
-  · simp only [hc, Bool.false_eq_true, if_false, pyAssert_true, bind, Except.bind, pure, Except.pure]
+  -- by cases on the dict look-up itself, so that `key in d` and `d.get(key) is not None` in the source prove alike
+  cases hg : PyDict.get? strEq s.services (lower info.name) with
+  | some v =>
+    simp [PyDict.contains, hg, pyAssert_true, bind, Except.bind, throw, throwThe, MonadExceptOf.throw]
+  | none =>
+    simp only [PyDict.contains, hg, Option.isSome_none, Option.isNone_none, Bool.not_true, Bool.false_eq_true, if_false, pyAssert_true,
+      bind, Except.bind, pure, Except.pure]
     rw [← index_add_eq, ← index_add_eq]
     rfl
 
